@@ -511,6 +511,10 @@ def noParkAfterStop (sys : Sys) (s : St) : Bool :=
       (stepTh sys s 0).all fun s' => match taskTh s' with | some t' => !t'.isParked | none => true
   | none => true
 
+/-- no deadlock: as long as the task thread has not ended, some thread of the system can take a step -/
+def progress (sys : Sys) (s : St) : Bool :=
+  (match taskTh s with | some t => t.finished | none => false) || !(succs sys s).isEmpty
+
 /-- a generic (non-loop) task only ever leaves its waiting loop through QMI_TaskStopException -/
 def exitOnlyByStop (s : St) : Bool :=
   match taskTh s with
